@@ -33,6 +33,7 @@ type propDef struct {
 var props = map[string]*propDef{}
 
 func cmdRun(args []string) {
+	trimGoCache(12 * 1024)
 	fs := flag.NewFlagSet("run", flag.ExitOnError)
 	prop := fs.String("prop", "", "property id")
 	tier := fs.String("tier", "quick", "quick|thorough")
@@ -1237,4 +1238,32 @@ func probeLiteral(rng *rand.Rand, tag string) string {
 		return fmt.Sprintf("%s:%d", tag, rng.Uint64()&maskW(w))
 	}
 	return randomLiteral(rng, tag, "")
+}
+
+// trimGoCache: every native replay / validation batch compiles a test binary of package tensor with the harness overlay; the
+// Go build cache keeps those artefacts (tens of MB per run). When the cache has grown beyond limitMB it is emptied - the
+// checks do not depend on it (they only get slower once).
+func trimGoCache(limitMB int64) {
+	out, err := exec.Command("go", "env", "GOCACHE").Output()
+	if err != nil {
+		return
+	}
+	dir := strings.TrimSpace(string(out))
+	if dir == "" || dir == "off" {
+		return
+	}
+	du, err := exec.Command("du", "-sm", dir).Output()
+	if err != nil {
+		return
+	}
+	f := strings.Fields(string(du))
+	if len(f) == 0 {
+		return
+	}
+	mb, err := strconv.ParseInt(f[0], 10, 64)
+	if err != nil || mb < limitMB {
+		return
+	}
+	fmt.Fprintf(os.Stderr, "go build cache is %d MB (> %d MB): cleaning it\n", mb, limitMB)
+	exec.Command("go", "clean", "-cache").Run()
 }
